@@ -59,6 +59,14 @@ func c19Prefix(pos string) [][]byte {
 		return [][]byte{[]byte("EHLO c.example\r\n"), []byte("MAIL FROM:<ok@a.example>\r\nRCPT TO:<ok@b.example>\r\n"), []byte("BDAT 5\r\n"), []byte("hello"), []byte("RSET\r\n")}
 	case "after-open-chunk":
 		return [][]byte{[]byte("EHLO c.example\r\n"), []byte("MAIL FROM:<ok@a.example>\r\nRCPT TO:<ok@b.example>\r\n"), []byte("BDAT 5\r\n"), []byte("hello")}
+	case "after-refused-chunk":
+		// MaxMessageBytes is 4 here (evalC19Line): the chunk is answered 552 and skipped
+		return [][]byte{[]byte("EHLO c.example\r\n"), []byte("MAIL FROM:<ok@a.example>\r\nRCPT TO:<ok@b.example>\r\n"), []byte("BDAT 10\r\n"), []byte("0123456789")}
+	case "after-refused-chunk-nomail":
+		return [][]byte{[]byte("EHLO c.example\r\n"), []byte("BDAT 10\r\n"), []byte("0123456789")}
+	case "after-failed-chunk":
+		// the backend gives up inside the chunk ("early" directive): the rest of the chunk is skipped
+		return [][]byte{[]byte("EHLO c.example\r\n"), []byte("MAIL FROM:<ok@a.example>\r\nRCPT TO:<ok@b.example>\r\n"), []byte("BDAT 24\r\n"), []byte("early-x\r\nrest of chunk..")}
 	}
 	panic(pos)
 }
@@ -67,6 +75,9 @@ func evalC19Line(c C19LineCase) *h.Finding {
 	pc := ref.PConfig{AllowInsecureAuth: true, AuthBackend: true}
 	cfg, be := serverFor(pc)
 	cfg.MaxLineLength = c.Limit
+	if c.Pos == "after-refused-chunk" {
+		cfg.MaxMessageBytes = 4
+	}
 	segs := c19Prefix(c.Pos)
 	nPrefix := 0
 	for _, s := range segs {
@@ -428,7 +439,7 @@ func C19(tier string) int {
 		strLen, seqLen = 5, 9
 	}
 	limits := []int{16, 64, 2000}
-	positions := []string{"first", "after-ehlo", "auth-continuation", "after-data", "after-chunk", "after-open-chunk"}
+	positions := []string{"first", "after-ehlo", "auth-continuation", "after-data", "after-chunk", "after-open-chunk", "after-refused-chunk", "after-refused-chunk-nomail", "after-failed-chunk"}
 	var lineCases []C19LineCase
 	for _, lim := range limits {
 		for _, pos := range positions {
